@@ -222,6 +222,9 @@ def m3(ck, em, rng, nscn, seeds=None):
         direct = bool(r.rand() < 0.5)
         means = r.normal(size=(C, D)) * 2
         var = r.uniform(0.9, 2.0, size=(C, D))
+        if zero_comp is not None and tiny is None and r.rand() < 0.6:
+            # the component without data is a collapsed one: its UBM variance lies below the i-vector floor
+            var[zero_comp] = np.finfo(float).eps if r.rand() < 0.5 else var[zero_comp] * 1e-3
         ubm = em.GMMMachine(C)
         ubm.means = means.copy()
         ubm.variances = var.copy()
@@ -274,7 +277,9 @@ def m3(ck, em, rng, nscn, seeds=None):
 
         def event(k, rank, T, sg):
             finite = bool(np.all(np.isfinite(T)) and np.all(np.isfinite(sg)))
-            valid = bool(finite and np.all(sg >= floor))
+            # the floor is demanded of UPDATED covariances (C10); without covariance updating sigma is the UBM's
+            # variances, which the trainer does not touch
+            valid = bool(finite and (not upd or np.all(sg >= floor)))
             active = bool(upd and finite and np.any(sg <= floor))
             return {"ev": "Iter", "k": k, "rank": rank, "rel": "na", "guard": bool(active or not valid),
                     "valid": valid, "why": ""}
@@ -304,6 +309,9 @@ def m3(ck, em, rng, nscn, seeds=None):
             if driver == "steps":
                 # event 1 is the starting point, event k+1 the state after k iterations
                 ev = [event(k + 1, rk[k], *states[k]) for k in range(K + 1)]
+                # event 1 is the caller's starting point, not a trained model: the floor is demanded of what
+                # training returns (its covariance may be the UBM's, below the floor, before the first update)
+                ev[0]["valid"] = bool(np.all(np.isfinite(states[0][0])) and np.all(np.isfinite(states[0][1])))
                 tr = {"kind": "ivector-steps", "cap": K + 1, "thr": False, "dir": "up",
                       "ev": ev + [dict(stop, k=K + 1)]}
             else:
